@@ -187,7 +187,7 @@ const REPLY_OPS: &[&str] = &[
     "REMOVEMAPPING", "NOTIFY_REPLY",
 ];
 
-fn strategy(tier: Tier) -> BoxedStrategy<Case> {
+pub fn strategy(tier: Tier) -> BoxedStrategy<Case> {
     let max = tier.pick(65536usize, 1 << 20);
     // weight the ops that carry structured results
     let ops: Vec<(u32, &'static str)> = REPLY_OPS
